@@ -420,6 +420,10 @@ def run(ctx):
     binp = vlib.cargo_build("x09")
     hooks = hooks_present()
     ctx.extra["hooks_present_in_tree"] = hooks
+    missing = sorted(h for h, v in hooks.items() if not v)
+    if missing:
+        vlib.log("hooks not in this tree: %s -> their step clauses are skipped (results judged by the input/output relations only)"
+                 % ", ".join(missing))
     skip_mc = os.environ.get("VERIF_X09_SKIP_MC") == "1" and vlib.REPO != "/repo"     # development knob (mutant runs)
     # (A) design models
     for k, consts in enumerate([] if skip_mc else D_MC[ctx.tier]):
